@@ -826,8 +826,10 @@ impl<'a> LineBreaker<'a> {
                                 diffs.update_from_glue(&glue.value);
                             }
                             Kern(kern) => {
+                                // The kern is discarded after the break, so the next line
+                                // starts after it, like for the glue above.
                                 if kern.kind == ds::KernKind::Explicit {
-                                    diffs.width -= kern.width;
+                                    diffs.width += kern.width;
                                 }
                             }
                             _ => {}
